@@ -4,12 +4,45 @@ from . import p_echsd
 RULE = ("random histories on echsd.c (virtual-time loop): add / replace / cancel requests from 4 known users and an unknown "
         "peer over a small pool of UIDs (so that replacing, cancelling and foreign access happen constantly), X-ECHS-OWNER "
         "fields naming the peer or someone else, interleaved with clock advances, child exits, table dumps and GET [/u/<uid>]/sched[?tuid=] requests from every user and root (own uid, another uid, bit-supersets such as 1023/2047, none); root and "
-        "per-user daemons; the reference is the abstract map UID -> (owner, task): one reply per instruction, 2.0 iff the "
+        "per-user daemons; tasks whose UID has 256..700 characters, tasks without UID (filed under the hash of the command, "
+        "listed and cancellable as echse/autouid-0x...@echse) and tasks with neither UID nor SUMMARY; the reference is the abstract map UID -> (owner, task): one reply per instruction, 2.0 iff the "
         "map changed as requested, no effect on other users' entries.")
 
 
+def probes(ctx):
+    """two fixed histories for the recorded limits of the task table (keyed by the bare 32-bit hash of the UID, direct-mapped)"""
+    from . import common
+    from .p_echsd import TaskSpec, request, T0, xxh32
+    exe = p_echsd.build(ctx)
+    same = ("job-91490@example.com", "job-327544@example.com")          # equal hashes
+    near = ("t2046", "t2398")                                           # hashes that agree in their low 22 bits
+    assert xxh32(same[0].encode()) == xxh32(same[1].encode()) and (xxh32(near[0].encode()) ^ xxh32(near[1].encode())) % (1 << 23) == 1 << 22
+    add = lambda peer, uid: request(peer, [TaskSpec(uid, [T0 + 500, T0 + 600])])[0]
+    lines = ["d.hist 0 ; T %d ; %s ; %s ; Q" % (T0, add(1001, same[0]), add(1001, same[1])),
+             "d.hist 0 ; T %d ; %s ; %s ; QZ" % (T0, add(1001, near[0]), add(1002, near[1]))]
+    impl, st, err = ctx.impl(exe, lines, timeout=300)
+    seen = {}
+    g = p_echsd.parse_groups(impl[0]) if impl else []
+    rows = [r.split(":")[0] for r in g[-1].split(",") if r] if g else None
+    if rows is None or sorted(rows) != sorted(same):
+        seen["uid-hash-collision"] = ("two UIDs of one user with equal 32-bit hashes (%s, %s): the queue holds %s, replies %s" % (same + (rows, g[2:4] if g else None)), lines[0])
+    g = p_echsd.parse_groups(impl[1]) if len(impl) > 1 else []
+    m = __import__("re").match(r"(\d+)/(\d+)$", g[-1]) if g else None
+    if not m or int(m.group(1)) != 2 or int(m.group(2)) > 1 << 16:
+        seen["table-growth"] = ("two tasks whose UID hashes agree in the low 22 bits (%s, %s): tasks/slots of the table %s, replies %s" % (near + (g[-1] if g else None, g[2:4] if g else None)), lines[1])
+    ctx.cov["table_probes"] = {k: v[0] for k, v in seen.items()} or "two colliding UIDs are two entries; the table stays small"
+    known = {k.get("class"): k for k in common.load_known("C11") if k.get("status") == "known"}
+    for c, (why, line) in seen.items():
+        if c in known:
+            ctx.known(known[c]["what"])
+        elif not any(v["found"] for v in ctx.violations):
+            ctx.violation("property", why, {"op": line, "impl": impl})
+
+
 def run(ctx):
-    p_echsd.run_checks(ctx, "C11", {"steps": 26, "nusers": 4, "p_cancel": 0.35, "chk": False, "http": True, "httpq": True, "conns": True}, 500, 6000, RULE,
+    probes(ctx)
+    p_echsd.run_checks(ctx, "C11", {"steps": 26, "nusers": 4, "p_cancel": 0.35, "chk": False, "http": True, "httpq": True, "conns": True,
+                                      "uidforms": [None] * 6 + ["long", "auto", "auto", "none"]}, 500, 6000, RULE,
                        me_choices=(0, 0, 0, 1001))
 
 
